@@ -7,8 +7,21 @@
              equality with the specification's predicted name, contents.plist bijection
      axmap   map_forward / map_backward results on a knot list, exact rationals
      tree    a document projected before writing and after reading back: ReadWrite
-     upconv  UFO 2 groups/kerning as read through the UFO 3 interface: UpConvert        *)
+     upconv  UFO 2 groups/kerning as read through the UFO 3 interface: UpConvert
+   Transport only (no judgement): values that occur several times in a batch are sent once,
+   in a pool file (environment variable C19_POOL), and referred to by position; Expand /
+   SeqVal put them back before anything is judged, like UnRle does for runs.            *)
 EXTENDS TraceIO, Filenames, AxisMap, DocSem
+
+(* [tree |-> sequence of tree nodes, seq |-> sequence of integer sequences] *)
+Pool == JsonDeserialize(IOEnv.C19_POOL)
+SeqRefBase == 1000000000
+SeqVal(x) == IF Len(x) = 1 /\ x[1] <= -SeqRefBase THEN Pool.seq[-x[1] - SeqRefBase] ELSE x
+RECURSIVE Expand(_)
+Expand(t) == IF t[1] = "P" THEN Expand(Pool.tree[t[2]])
+             ELSE IF t[1] = "L" THEN <<"L", [i \in 1..Len(t[2]) |-> Expand(t[2][i])]>>
+             ELSE IF t[1] = "D" THEN <<"D", [i \in 1..Len(t[2]) |-> <<t[2][i][1], Expand(t[2][i][2])>>]>>
+             ELSE t
 
 VARIABLES tid, verdict
 vars == <<tid, verdict>>
@@ -32,13 +45,19 @@ RECURSIVE UnRleFrom(_, _, _)
 UnRleFrom(r, i, acc) == IF i > Len(r) THEN acc
                         ELSE IF r[i] < 0 THEN UnRleFrom(r, i + 1, acc \o [j \in 1..(-r[i]) |-> r[i - 1]])
                         ELSE UnRleFrom(r, i + 1, Append(acc, r[i]))
-UnRle(r) == IF \A i \in 1..Len(r) : r[i] >= 0 THEN r ELSE UnRleFrom(r, 1, <<>>)
+UnRle0(r) == IF \A i \in 1..Len(r) : r[i] >= 0 THEN r ELSE UnRleFrom(r, 1, <<>>)
+UnRle(r) == UnRle0(SeqVal(r))
 
-(* The transcription lower-cases character by character.  Python's str.lower() does so too,
-   except for GREEK CAPITAL LETTER SIGMA (U+03A3), whose result depends on its neighbours; the
-   predicted name is therefore compared only in histories without that letter (the
-   properties Legal / Bounded / CaseUnique are judged for every history).                *)
-Transcribable(name) == \A j \in 1..Len(name) : name[j] # 931
+(* The predicted name (the reference algorithm of the UFO 3 conventions, transcribed in
+   Filenames) is normative only where that algorithm itself keeps the property:
+   - it lower-cases with str.lower(), which is character by character except for GREEK CAPITAL
+     LETTER SIGMA (U+03A3), whose image (U+03C3 or final U+03C2) depends on the neighbours, so
+     for names with a sigma "the same name ignoring case" is not a function of the algorithm;
+     the predicted name is compared only in histories without U+03A3 / U+03C3 / U+03C2;
+   - where it puts the reserved-name "_" in after clipping and thereby leaves the bound
+     (ReservedAfterClip) any bounded answer is accepted.
+   Legal / Bounded / CaseUnique are judged for every history and every name.            *)
+Transcribable(name) == \A j \in 1..Len(name) : name[j] \notin {931, 962, 963}
 
 (* what the specification predicts for the call that was made *)
 Predict(ci, st, user, E) ==
@@ -60,7 +79,8 @@ FnFrom(t, i, E, faithful) ==
        ELSE IF Len(out) > MaxLen THEN
               <<IF st.fnk = "u" /\ ReservedAfterClip(ci, user, st.p, st.s) THEN "fn:bounded:reserved-prefix-after-clip" ELSE "fn:bounded:other", i>>
        ELSE IF low \in E THEN <<IF low # outl \/ ~faithful THEN "fn:caseunique:contextual-lower" ELSE "fn:caseunique", i>>
-       ELSE IF faithful /\ t.predict = 1 /\ Transcribable(user) /\ Predict(ci, st, user, E) # out THEN <<"fn:predicted", i>>
+       ELSE IF faithful /\ t.predict = 1 /\ Transcribable(user) /\ ~(st.fnk = "u" /\ ReservedAfterClip(ci, user, st.p, st.s))
+               /\ Predict(ci, st, user, E) # out THEN <<"fn:predicted", i>>
        ELSE FnFrom(t, i + 1, E \cup {low}, faithful /\ low = outl /\ Transcribable(user))
 
 JFn(t) ==
@@ -100,10 +120,11 @@ JAxmap(t) ==
 
 (* ---- document trees ------------------------------------------------------------- *)
 JTree(t) ==
-  IF ~WellFormed(t.a) THEN <<"malformed:tree-a">>
+  LET a == Expand(t.a) b == Expand(t.b) IN
+  IF ~WellFormed(a) THEN <<"malformed:tree-a">>
   ELSE IF t.raised = 1 THEN <<"tree:raised">>          \* the writer or the reader raised on a valid document
-  ELSE IF ~WellFormed(t.b) THEN <<"malformed:tree-b">>
-  ELSE IF ~ReadWrite(t.a, t.b) THEN <<"tree:diff", Diff(t.a, t.b)>>
+  ELSE IF ~WellFormed(b) THEN <<"malformed:tree-b">>
+  ELSE IF ~ReadWrite(a, b) THEN <<"tree:diff", Diff(a, b)>>
   ELSE IF t.haspoint = 1 /\ t.fam = "ds" /\
           <<t.fmt[1], t.fmt[2]>> # <<EffectiveMajor(t.point.kind, {t.point.present[i] : i \in 1..Len(t.point.present)}, t.point.ver),
                                      EffectiveMinor(t.point.kind, {t.point.present[i] : i \in 1..Len(t.point.present)}, t.point.ver)>>
